@@ -334,10 +334,11 @@ def run_history(seed, knobs=None):
                 stale_l = [a for a in plan.arrivals if a['uid'] == mon.uid and a['epoch'] < e and a['answered'] is not None and lo <= a['answered_ev'] < hi]
                 stale = len(stale_l)
                 failed = len([a for a in arr + stale_l if a['answered'] == ('failed',)])
+                if e == 0:
+                    count('timeout_elapsed_checks')
                 if len(outs) == 0:
                     if e == 0:
                         # the timeout of the first page has elapsed (virtual time is past start + T + eps, all due timers ran)
-                        count('timeout_elapsed_checks')
                         viol.append(('no-outcome-after-timeout-elapsed', 'uid %d: no callback/errback although the %.1f s timeout elapsed %.2f s ago' % (
                             mon.uid, T, world.now - mon.epoch_start[0] - T), mon))
                     for w in mon.watches[1:]:
@@ -421,7 +422,7 @@ def run(ctx):
     ctx.assume("answers of one page epoch are delivered before the next page fetch is started (no stale answer crosses into a later epoch)")
     ctx.assume("void results are not served for paged statements; UNPREPARED is served to EXECUTE only")
     n = ctx.scale(4000, 200000)
-    budget = 45 if ctx.quick else 420
+    budget = 40 if ctx.quick else 420
     base = ctx.seed * 1000003 + (ctx.worker or 0) * 100003
     for i in range(n):
         if ctx.time_left(budget) < 0:
@@ -456,4 +457,4 @@ def run(ctx):
     ctx.floor_distinct = 150 if ctx.quick else 5000
     ctx.floor_counters = {"histories": 150, "epochs_with_single_completion": 150, "registrations_compared": 300, "late_registrations_checked": 80,
                           "result_calls_compared": 100, "quiescence_checks_all_messages_answered": 150, "retry_decisions": 50,
-                          "later_page_fetches": 20}
+                          "later_page_fetches": 20, "timeout_elapsed_checks": 150}
